@@ -6,7 +6,9 @@
 //! `limit 10`, `sort by x` vs `sort by x asc`).
 //! P-level (real code only): both renderings are accepted or both rejected; the ASTs are equal
 //! modulo the documented freedom; the `-o json` output on a probe input is identical.
-//! Also: each built-in alias against its expansion on the repository's sample logs, and the CLI
+//! Also: every way to quote one string that contains quote characters (either delimiter, the other
+//! quote bare or needlessly escaped) in every position that takes a quoted string (`requote`);
+//! each built-in alias against its expansion on the repository's sample logs, and the CLI
 //! pairs `--format F` ≡ `-o format=F`, `--file P` ≡ `< P` on the binary.
 //! F-level: the shared PARSE comparison on every rendering.
 use super::c04::{self, Rep};
